@@ -50,7 +50,12 @@ ProfileTable ==
    S6 |-> << A("u1", 0, 1, "a"), A("u1", 0, 0, "a"), A("u1", 0, 0, "b"),
              A("u2", 0, 1, "a"), A("u2", 0, 1, "b"), A("u1", 1, 2, "a") >>,
    T6 |-> << A("u1", 0, 0, "a"), A("u1", 0, 0, "a"), A("u1", 0, 1, "b"),
-             A("u2", 1, 0, "a"), A("u2", 1, 2, "a"), A("u1", 1, 1, "a") >>]
+             A("u2", 1, 0, "a"), A("u2", 1, 2, "a"), A("u1", 1, 1, "a") >>,
+   \* many connections that (all but the last) never conflict: many routes active at once in one
+   \* hash slot, hence many distinct activity seconds in its expiry index (SimBuckets.tla)
+   W10 |-> << A("u1", 0, 2, "a"), A("u1", 1, 2, "a"), A("u2", 0, 0, "a"), A("u2", 0, 0, "b"),
+              A("u3", 0, 0, "a"), A("u3", 1, 0, "a"), A("u4", 0, 2, "a"), A("u5", 0, 2, "a"),
+              A("u5", 0, 0, "b"), A("u4", 0, 1, "b") >>]
 Profiles == {ProfileTable[n] : n \in ProfileNames}
 
 Conns      == 1..Len(cfg.conns)
